@@ -7,23 +7,24 @@ Definition bytes := list nat.
 Inductive io :=
 | Mkdir
 | Open_trunc (n : name)            (* open(n, 'wb'): n exists and is empty from now on *)
-| Write (n : name) (bs : bytes)    (* buffered / page-cache write: may be lost, in any prefix, on a crash *)
-| Flush (n : name)
-| Fsync (n : name)                 (* everything written so far becomes durable *)
-| Close (n : name)
+| Write (n : name) (bs : bytes)    (* into the process's own buffer: lost entirely if the process or machine dies *)
+| Flush (n : name)                 (* buffer -> operating system (page cache): survives in any prefix on power loss *)
+| Fsync (n : name)                 (* everything already handed to the OS becomes durable (NOT the process buffer) *)
+| Close (n : name)                 (* flushes *)
 | Rename (a b : name).             (* atomic: b now names a's file, a disappears *)
 
-(** a file: durable bytes, then bytes a crash may cut anywhere *)
-Definition file := (bytes * bytes)%type.
+(** a file: durable bytes, bytes in the OS cache (a crash may cut them anywhere), bytes still in the process buffer *)
+Definition file := (bytes * bytes * bytes)%type.
 Definition fs := name -> option file.
 Definition upd (f : fs) (n : name) (v : option file) : fs := fun m => if Nat.eqb m n then v else f m.
 
 Definition exec1 (f : fs) (o : io) : fs :=
   match o with
-  | Mkdir | Flush _ | Close _ => f
-  | Open_trunc n => upd f n (Some ([], []))
-  | Write n bs => match f n with Some (d, p) => upd f n (Some (d, p ++ bs)) | None => f end
-  | Fsync n => match f n with Some (d, p) => upd f n (Some (d ++ p, [])) | None => f end
+  | Mkdir => f
+  | Open_trunc n => upd f n (Some ([], [], []))
+  | Write n bs => match f n with Some (d, p, u) => upd f n (Some (d, p, u ++ bs)) | None => f end
+  | Flush n | Close n => match f n with Some (d, p, u) => upd f n (Some (d, p ++ u, [])) | None => f end
+  | Fsync n => match f n with Some (d, p, u) => upd f n (Some (d ++ p, [], u)) | None => f end
   | Rename a b => match f a with Some x => upd (upd f b (Some x)) a None | None => f end
   end.
 Definition exec (ops : list io) (f : fs) : fs := fold_left exec1 ops f.
@@ -32,7 +33,7 @@ Definition exec (ops : list io) (f : fs) : fs := fold_left exec1 ops f.
 Definition after_crash (f : fs) (n : name) (c : option bytes) : Prop :=
   match f n, c with
   | None, None => True
-  | Some (d, p), Some bs => exists k, k <= length p /\ bs = d ++ firstn k p
+  | Some (d, p, _), Some bs => exists k, k <= length p /\ bs = d ++ firstn k p
   | _, _ => False
   end.
 
@@ -46,21 +47,23 @@ Definition direct_save (final : name) (chunks : list bytes) : list io :=
 (** syntactic checker used on the op list extracted from the source *)
 Definition touches (n : name) (o : io) : bool :=
   match o with
-  | Open_trunc m | Write m _ | Fsync m => Nat.eqb m n
+  | Open_trunc m | Write m _ | Fsync m | Flush m | Close m => Nat.eqb m n
   | Rename a b => Nat.eqb a n || Nat.eqb b n
   | _ => false
   end.
-Fixpoint is_atomic_shape (tmp final : name) (ops : list io) (opened synced : bool) : bool :=
+(** [opened]: tmp exists; [flushed]: its process buffer is empty; [synced]: additionally its OS cache is empty *)
+Fixpoint is_atomic_shape (tmp final : name) (ops : list io) (opened flushed synced : bool) : bool :=
   match ops with
   | [] => false
-  | [Rename a b] => Nat.eqb a tmp && Nat.eqb b final && opened && synced
+  | [Rename a b] => Nat.eqb a tmp && Nat.eqb b final && opened && flushed && synced
   | o :: r =>
       negb (touches final o) &&
       match o with
-      | Open_trunc m => Nat.eqb m tmp && is_atomic_shape tmp final r true false
-      | Write m _ => Nat.eqb m tmp && opened && is_atomic_shape tmp final r opened false
-      | Fsync m => Nat.eqb m tmp && is_atomic_shape tmp final r opened opened
+      | Open_trunc m => Nat.eqb m tmp && is_atomic_shape tmp final r true true true
+      | Write m _ => Nat.eqb m tmp && opened && is_atomic_shape tmp final r opened false false
+      | Flush m | Close m => Nat.eqb m tmp && is_atomic_shape tmp final r opened opened (flushed && synced)
+      | Fsync m => Nat.eqb m tmp && is_atomic_shape tmp final r opened flushed (opened && flushed)
       | Rename _ _ => false
-      | _ => is_atomic_shape tmp final r opened synced
+      | Mkdir => is_atomic_shape tmp final r opened flushed synced
       end
   end.
